@@ -16,13 +16,14 @@ clean()
 diff = "%s/%s.diff" % (mdir, m)
 demos = [f for f in glob.glob("%s/%s_demo*" % (mdir, m)) if f.endswith(".go")]
 assert os.path.exists(diff) and demos, (diff, demos)
+demos.sort(key=len)
 demo = demos[0]
-txt = open(demo).read()
+txt = "\n".join(open(d).read() for d in demos)
 pkg = re.search(r"^package (\w+)", txt, re.M).group(1)
 target = {"diam_test": "diam", "diam": "diam", "sm_test": "diam/sm", "sm": "diam/sm", "smparser_test": "diam/sm/smparser", "datatype_test": "diam/datatype"}.get(pkg, "diam/sm/" + pkg)
 tests = re.findall(r"^func (Test\w+)\(", txt, re.M)
 os.makedirs(os.path.join(src, target), exist_ok=True)
-dst = os.path.join(src, target, os.path.basename(demo))
+dsts = [os.path.join(src, target, os.path.basename(d)) for d in demos]
 runre = "^(" + "|".join(tests) + ")$"
 democmd = "go test -tags verif -vet=off -count=1 -timeout 120s ./%s/ -run '%s'" % (target, runre)
 def pinned():
@@ -35,17 +36,17 @@ def pinned():
     base = set(json.load(open("/root/.vp/BASELINE.json"))["stable_pass"])
     return sorted(base - passed)
 res = {}
-shutil.copy(demo, dst)
+[shutil.copy(d, x) for d, x in zip(demos, dsts)]
 rc, out = sh(democmd); res["demo_on_clean_tree"] = "pass" if rc == 0 else "FAIL"
 clean_out = out[-400:]
-os.remove(dst)
+[os.remove(x) for x in dsts]
 rc, out = sh("git apply %s" % diff); assert rc == 0, out
 rc, out = sh("go build ./... && go build -tags verif ./diam/..."); res["build_with_change"] = "ok" if rc == 0 else "FAIL: " + out[-300:]
 missing = pinned(); res["pinned_suite_with_change"] = "140/140 pass" if not missing else "MISSING %d: %s" % (len(missing), missing[:3])
-shutil.copy(demo, dst)
+[shutil.copy(d, x) for d, x in zip(demos, dsts)]
 rc, out = sh(democmd); res["demo_with_change"] = "fail (as intended)" if rc != 0 else "PASSES (change not demonstrated)"
 mut_out = out[-600:]
-os.remove(dst)
+[os.remove(x) for x in dsts]
 clean()
 ok = res["demo_on_clean_tree"] == "pass" and res["build_with_change"] == "ok" and not missing and rc != 0
 print(prop, m, json.dumps(res))
@@ -54,7 +55,7 @@ if not ok:
 out = "/verif/seeded/%s-%s" % (prop, m)
 os.makedirs(out, exist_ok=True)
 shutil.copy(diff, out + "/patch.diff")
-shutil.copy(demo, out + "/" + os.path.basename(demo))
+[shutil.copy(d, out + "/" + os.path.basename(d)) for d in demos]
 readme = open(mdir + "/README.md").read() if os.path.exists(mdir + "/README.md") else ""
 sec = ""
 mm = re.search(r"(?ms)^#+[^\n]*\b%s\b.*?(?=^#+[^\n]*\bm[0-9]\b|\Z)" % m, readme)
